@@ -53,6 +53,11 @@ def flat_out(states):
 def admissible(desc, spec, seed):
     """reference-side margins (DESIGN 3.1); returns None or a reason"""
     fam = desc['fam']
+    if fam == 'MathGeneral':
+        try:
+            import sympy  # noqa
+        except ImportError:
+            return 'sympy not installed (setup.sh could not install it): MathGeneral sub-lattice not explored'
     if fam in ('PNorm', 'SoftMinMax', 'KSFunction') and desc.get('active', 'none') != 'none':
         x = spec.inputs[0].base
         h = 4 * spec.h
